@@ -18,7 +18,9 @@ RULE = (
     "*args / **kwargs / lambda parameter, except-as, keyword use, global, nonlocal, comprehension target, walrus, self.attr, "
     "class attribute): first binding any of the 23 forms, second binding one of 8 core forms (thorough: all 23); same-name "
     "pairs (shadowing) included x scope (module, function; thorough: method, nested function); "
-    "each binding gets a distinct value and is read and printed after both bindings. drivers: the nine renaming rules "
+    "each binding gets a distinct value and is read and printed after both bindings; nested shadowing: a module-level binding (5 forms) and a "
+    "function that binds the same name locally (14 forms) x 5 names; generated names: 5 overused literals (alone and in pairs) x 8 names the tool would generate, "
+    "already bound in the input in 5 ways x module / function placement, plus a function the control-flow abstraction rewrites. drivers: the nine renaming rules "
     "alone, and format_code (quick: module scope and both bindings of a core form). oracle: original and result executed, identical output (a captured "
     "or half-renamed binding changes a printed value or raises NameError / UnboundLocalError / AttributeError). "
     "non-trivial = the driver changed the text"
@@ -93,20 +95,67 @@ def build(n1, f1, n2, f2, scope):
     raise ValueError(scope)
 
 
+# generated names (family added after the seeded change C19-overused-constant-name-collision): the input already binds
+# the name the tool is about to generate, in every spelling the convention can turn it into
+GEN_LITERALS = {"tuple": "(11, 22, 33, 44, 55, 66, 77, 88)", "list": "[100, 200, 300, 400, 500, 600]", "identifier_string": "'configuration_value_x_long'",
+                "dict": "{'a': 1, 'b': 2, 'c': 3, 'd': 4, 'e': 5}", "sentence": "'a sentence that is not an identifier'"}
+GEN_TAKEN = ["PYREFACT_OVERUSED_CONSTANT_0", "pyrefact_overused_constant_0", "PYREFACT_OVERUSED_CONSTANT_1", "pyrefact_overused_constant_1",
+             "CONFIGURATION_VALUE_X_LONG", "configuration_value_x_long", "_pyrefact_abstraction_1", "_pyrefact_abstraction_2"]
+GEN_BINDINGS = {
+    "module_assign": "{n} = 'taken'\n",
+    "module_def": "def {n}():\n    return 'taken'\n",
+    "module_import": "import math as {n}\n",
+    "module_for": "for {n} in ('taken',):\n    pass\n",
+    "module_assign_late": "",
+}
+ABSTRACTION_BODY = ("def control(c, a, b):\n    if c:\n        print(a + 1)\n        print(a)\n        print(a * 2)\n    else:\n        print(b + 1)\n"
+                    "        print(b)\n        print(b * 2)\ncontrol(True, 1, 2)\ncontrol(False, 1, 2)\n")
+
+
+def gen_program(lit, lit2, taken, binding, where):
+    uses = "".join("print(%s, %d)\n" % (GEN_LITERALS[lit], i) for i in range(5))
+    if lit2:
+        uses += "".join("print(%s, %d)\n" % (GEN_LITERALS[lit2], i) for i in range(5))
+    if where == "function":
+        uses = "def user():\n" + textwrap.indent(uses, "    ") + "user()\n"
+    head = GEN_BINDINGS[binding].format(n=taken)
+    tail = "print(%s)\n" % taken if binding != "module_assign_late" else "%s = 'late'\nprint(%s)\n" % (taken, taken)
+    return head + uses + ABSTRACTION_BODY + tail
+
+
+def nested_shadow_build(n, f1, f2):
+    """first binding of n at module level, second binding of the SAME name inside a function (a local variable that
+    shadows it); both are read after both bindings (scope added after a function-local import was found to be renamed
+    with the module variable it shadows)"""
+    s1, r1 = FORMS[f1]
+    s2, r2 = FORMS[f2]
+    outer = s1.format(n=n, v=11, k="p") + "print(%s)\n" % r1.format(n=n, v=11, k="p")
+    inner = s2.format(n=n, v=22, k="q") + "print(%s)\n" % r2.format(n=n, v=22, k="q")
+    return PRE + outer + "def shadowing_fn():\n" + textwrap.indent(inner, "    ") + "    return 0\nshadowing_fn()\n" + "print(%s)\n" % r1.format(n=n, v=11, k="p")
+
+
+SHADOW_NAMES = ["myVar", "my_var", "MY_VAR", "limit", "f"]
+SHADOW_INNER_FORMS = ["assign", "augassign", "annassign", "tuple", "for", "with", "import_as", "def", "class", "except_as", "comp", "walrus", "lambda_param", "param"]
+
+
 def units(tier):
     scopes = ["module", "function"] if tier == "quick" else ["module", "function", "method", "nested"]
     forms2 = CORE_FORMS if tier == "quick" else list(FORMS)
     for n1, n2 in name_pairs():
         for scope in scopes:
             yield {"n1": n1, "n2": n2, "scope": scope, "forms2": forms2}
+    for n in SHADOW_NAMES:
+        yield {"shadow": n}
+    for lit in GEN_LITERALS:
+        yield {"gen": lit}
 
 
 def worker_init():
     progs.worker_setup()
 
 
-def check(n1, f1, n2, f2, scope, with_fc, only=None):
-    src = build(n1, f1, n2, f2, scope)
+def check(n1, f1, n2, f2, scope, with_fc, only=None, src=None, desc0=None):
+    src = src or build(n1, f1, n2, f2, scope)
     orig = progs.run_prog(src)
     # deterministic programs only: printing a function object shows its address, which differs between two runs
     admitted = orig[0] == "ok" and " at 0x" not in orig[1] and progs.run_prog(src) == orig
@@ -117,7 +166,7 @@ def check(n1, f1, n2, f2, scope, with_fc, only=None):
     for entry in entries:
         if only and entry != only:
             continue
-        desc = {"n1": n1, "f1": f1, "n2": n2, "f2": f2, "scope": scope, "entry": entry}
+        desc = {**desc0, "entry": entry} if desc0 else {"n1": n1, "f1": f1, "n2": n2, "f2": f2, "scope": scope, "entry": entry}
         boot.clear_caches()
         try:
             new = progs.format_code(src) if entry == "format_code" else progs.call_rule(entry, src)
@@ -137,10 +186,38 @@ def check(n1, f1, n2, f2, scope, with_fc, only=None):
     return out, info
 
 
+def _special_cases(unit):
+    if "shadow" in unit:
+        n = unit["shadow"]
+        for f1 in ("assign", "def", "for", "import_as", "class"):
+            for f2 in SHADOW_INNER_FORMS:
+                yield {"shadow": n, "f1": f1, "f2": f2}, nested_shadow_build(n, f1, f2), (n, f1, n, f2, "shadow")
+    else:
+        lit = unit["gen"]
+        for lit2 in (None, "tuple" if lit != "tuple" else "list"):
+            for taken in GEN_TAKEN:
+                for binding in GEN_BINDINGS:
+                    for where in ("module", "function"):
+                        yield ({"gen": lit, "gen2": lit2, "taken": taken, "binding": binding, "where": where},
+                               gen_program(lit, lit2, taken, binding, where), (taken, binding, lit, str(lit2), where))
+
+
 def run_unit(unit):
     tier = os.environ.get("MC_TIER", "quick")
     res = {"n": 0, "nontrivial": [], "viol": [], "stats": {}, "samples": []}
     st = res["stats"]
+    if "shadow" in unit or "gen" in unit:
+        for desc0, src, names in _special_cases(unit):
+            v, info = check(*names, with_fc=True, src=src, desc0=desc0)
+            if not info["admitted"]:
+                st["program_not_admitted"] = st.get("program_not_admitted", 0) + 1
+                continue
+            res["n"] += 1
+            res["nontrivial"].extend(info["nontrivial"])
+            res["viol"].extend(v)
+            if not res["samples"] and info["nontrivial"] and not v:
+                res["samples"].append(desc0)
+        return res
     for f1 in FORMS:
         for f2 in unit["forms2"]:
             if unit["scope"] != "module" and "global" in (f1, f2):
@@ -158,13 +235,23 @@ def run_unit(unit):
     return res
 
 
+def _special_src(desc):
+    if "shadow" in desc:
+        return nested_shadow_build(desc["shadow"], desc["f1"], desc["f2"]), (desc["shadow"], desc["f1"], desc["shadow"], desc["f2"], "shadow")
+    return (gen_program(desc["gen"], desc["gen2"], desc["taken"], desc["binding"], desc["where"]),
+            (desc["taken"], desc["binding"], desc["gen"], str(desc["gen2"]), desc["where"]))
+
+
 def replay(desc):
     progs.worker_setup()
+    if "shadow" in desc or "gen" in desc:
+        src, names = _special_src(desc)
+        return check(*names, with_fc=True, only=desc["entry"], src=src, desc0={k: v for k, v in desc.items() if k != "entry"})[0]
     return check(desc["n1"], desc["f1"], desc["n2"], desc["f2"], desc["scope"], True, only=desc["entry"])[0]
 
 
 def explain(desc):
-    src = build(desc["n1"], desc["f1"], desc["n2"], desc["f2"], desc["scope"])
+    src = _special_src(desc)[0] if ("shadow" in desc or "gen" in desc) else build(desc["n1"], desc["f1"], desc["n2"], desc["f2"], desc["scope"])
     boot.clear_caches()
     new = progs.format_code(src) if desc["entry"] == "format_code" else progs.call_rule(desc["entry"], src)
     return "--- original\n%s\n--- after %s\n%s\n--- outcomes %r -> %r" % (src, desc["entry"], new, progs.run_prog(src), progs.run_prog(new))
